@@ -152,7 +152,7 @@ def lexVal : List Char → List Char × List Char
 
 def lexKey (s : List Char) : Option (List Char × List Char) :=
   if long.isPrefixOf s then some (long, s.drop long.length)
-  else (keys.find? fun k => k.isPrefixOf s).map fun k => (k, s.drop k.length)
+  else (keys.find? fun k2 => k2.isPrefixOf s).map fun k2 => (k2, s.drop k2.length)
 
 def lex : Nat → List Char → Option (List (List Char × List Char))
   | _, [] => some []
@@ -241,7 +241,7 @@ theorem lexKey_correct (k : List Char) (hk : k ∈ keys) (w : List Char)
         · exact absurd h1.symm hl
         · exact absurd h1.1 hl
     rw [if_neg (by simp [hnl])]
-    cases hf : keys.find? (fun k => k.isPrefixOf (k ++ w)) with
+    cases hf : keys.find? (fun k2 => k2.isPrefixOf (k ++ w)) with
     | none =>
       have := List.find?_eq_none.mp hf k hk
       simp [hpk] at this
